@@ -851,6 +851,11 @@ var MergeFunc = function.New(&function.Spec{
 			if len(argMarks) > 0 {
 				markses = append(markses, argMarks)
 			}
+			if ty := arg.Type(); !ty.IsMapType() && !ty.IsObjectType() {
+				// the type check stops at the first dynamically-typed argument,
+				// so later arguments are checked here
+				return cty.NilVal, fmt.Errorf("arguments must be maps or objects, got %#v", ty.FriendlyName())
+			}
 			for it := arg.ElementIterator(); it.Next(); {
 				k, v := it.Element()
 				outputMap[k.AsString()] = v
